@@ -99,12 +99,54 @@ pub fn check_case(case: &MapCase, st: &mut Stats) -> Check {
     Ok(())
 }
 
+pub fn check_corpus(c: &CorpusAstCase, st: &mut Stats) -> Check {
+    let Some((bytes, ast)) = load_corpus_ast(c)? else {
+        st.class("corpus file not fully classified by the strict recogniser (skipped)");
+        return Ok(());
+    };
+    // the by-params statement is only unambiguous when no header/field record separates two methods of an inline group
+    let ambiguous = ast.blocks.iter().any(|b| {
+        let recs: Vec<&crate::gen::mapping::Item> = b.items.iter().filter(|i| !matches!(i, crate::gen::mapping::Item::Noise(_) | crate::gen::mapping::Item::Blank)).collect();
+        recs.windows(3).any(|w| match (w[0], w[1], w[2]) {
+            (crate::gen::mapping::Item::Method(a), x, crate::gen::mapping::Item::Method(b)) if !matches!(x, crate::gen::mapping::Item::Method(_)) => a.usable().is_some() && a.usable() == b.usable(),
+            _ => false,
+        })
+    });
+    if ambiguous {
+        st.class("corpus file with a record inside an inline group (skipped)");
+        return Ok(());
+    }
+    st.class("corpus file checked against the reference model");
+    let model = Model::new(&ast);
+    let u = sampled_universe(&ast, c.max_classes, c.pick);
+    let case_hash = crate::engine::fnv64(&bytes) ^ c.pick;
+    st.sample(|| serde_json::json!({"corpus file": c.path, "crlf": c.crlf, "classes sampled": u.known_classes.len(), "params sampled": u.params.len()}));
+    let m_params = mapper(&bytes, true)?;
+    let buf = write_cache(&bytes)?;
+    let cache = parse_cache(&buf)?;
+    let impls: [&dyn Retracer; 2] = [&m_params, &cache];
+    for (ii, r) in impls.into_iter().enumerate() {
+        no_panic("query", || {
+            let mut scratch = Stats::new();
+            let target: &mut Stats = if ii == 0 { st } else { &mut scratch };
+            check_params_model(r, &model, &u, case_hash, target)?;
+            if ii != 0 {
+                st.evaluations += scratch.evaluations;
+            }
+            Ok(())
+        })?;
+    }
+    Ok(())
+}
+
 pub fn run(ctx: &Ctx) -> Report {
     let mut rep = Report::new(ID, "exploration", ctx);
     rep.rule = "Cases: grammar-generated mapping ASTs weighted to overloads, repeated (obf,args,original) triples within and across classes, inline groups, methods with/without ranges, empty argument lists; header/field records never separate two methods with identical usable ranges (by construction). Oracle: by-params reference model from the AST (skip inlined callees = next record is a method with identical usable range; keep first of each triple per class block; last block of a name wins). Checked for the mapper with param index and for the cache on all (class, method, params) triples of the universe incl. unknown/near-miss values. Non-trivial = distinct (case, query) with non-empty model answer, or naming an entry removed by the inline filter / de-duplication.".into();
     rep.assumptions = vec!["cache buffers are 8-byte aligned".into(), "domain: non-empty names, numbers < 2^32-1".into()];
     let n = ctx.cases(30_000, 400_000);
     rep.run_stage("ast", || map_case(&cfg()), n, check_case);
+    let corpus = corpus_ast_cases(12, 50, 6, ctx);
+    rep.run_enum("corpus", &corpus, check_corpus);
     rep
 }
 
@@ -112,6 +154,7 @@ pub fn replay(stage: &str, case: &Value) -> Check {
     let mut st = Stats::new();
     match stage {
         "ast" => check_case(&serde_json::from_value(case.clone()).map_err(|e| Fail::new("harness-replay", e.to_string()))?, &mut st),
+        "corpus" => check_corpus(&serde_json::from_value(case.clone()).map_err(|e| Fail::new("harness-replay", e.to_string()))?, &mut st),
         _ => Err(Fail::new("harness-replay", format!("unknown stage {stage}"))),
     }
 }
